@@ -43,6 +43,7 @@ type Case struct {
 	TimeoutS  int
 	Expect    string // "" normal; "reach" = vacuity twin (must reach tags)
 	Group     string // evidence grouping
+	MustReach []string // reachability witnesses besides "end"
 }
 
 func (c Case) Key() string {
